@@ -496,6 +496,12 @@ class _ValueClassInstance(DefaultVisitor):
                 return self._rounded(e, _map(_LOGB, a))
             case AMin() | AMax() | Fst() | Snd():
                 return _TOP          # passes an operand through; see `_rounded`
+            case Sum():
+                # the interpreter folds `+` over the list *starting from its
+                # first element*, so a one-element list comes back unrounded
+                # (and an empty one gives an exact zero): the result need not
+                # be a value the context represents
+                return _TOP
             case _:
                 return self._rounded(e, _TOP)
 
